@@ -40,6 +40,12 @@ func checkStatus(run *rt.Run, w *World, o *SendObs, thr, thrSinks int, ctxInfo a
 	// used to interpret it, so they must agree with the log first (if they do not, that is C01's
 	// subject, not an accounting failure).
 	if ok, _ := decompose(o.Expected, append([]*Entry(nil), o.Entries...), !o.Cancelled); !ok {
+		// one clause does not need the node log: with a context that is never cancelled the Status has one
+		// entry per *registered* pipeline
+		if !o.Cancelled && len(complete)+len(o.Status.Warnings) != len(o.Expected) {
+			run.Violation("history-pattern:accounting", fmt.Sprintf("completes(%d)+warnings(%d) != registered pipelines(%d) (the node log does not match the registry either)", len(complete), len(o.Status.Warnings), len(o.Expected)), wit())
+			return
+		}
 		run.Inconclusive("the observed traversals differ from the registry model (C01's subject); status not judged for this Send")
 		return
 	}
